@@ -195,6 +195,18 @@ func (c *LocalReusableWorkflowCache) writeCache(key string, val *ReusableWorkflo
 	c.mu.Unlock()
 }
 
+// writeCacheIfAbsent stores the value unless some value was already stored for the key by another
+// goroutine. It returns the value in the cache and true when this call stored the value.
+func (c *LocalReusableWorkflowCache) writeCacheIfAbsent(key string, val *ReusableWorkflowMetadata) (*ReusableWorkflowMetadata, bool) {
+	c.mu.Lock()
+	defer c.mu.Unlock()
+	if m, ok := c.cache[key]; ok {
+		return m, false
+	}
+	c.cache[key] = val
+	return val, true
+}
+
 // FindMetadata finds/parses a reusable workflow metadata located by the 'spec' argument. When project
 // is not set to 'proj' field or the spec does not start with "./", this method immediately returns with nil.
 //
@@ -217,19 +229,23 @@ func (c *LocalReusableWorkflowCache) FindMetadata(spec string) (*ReusableWorkflo
 	file := filepath.Join(c.proj.RootDir(), filepath.FromSlash(spec))
 	src, err := os.ReadFile(file)
 	if err != nil {
-		c.writeCache(spec, nil) // Remember the workflow file was not found
+		if m, ok := c.writeCacheIfAbsent(spec, nil); !ok { // Remember the workflow file was not found
+			return m, nil // Another goroutine already found (and reported) it
+		}
 		return nil, fmt.Errorf("could not read reusable workflow file for %q: %w", spec, err)
 	}
 
 	m, err := parseReusableWorkflowMetadata(src)
 	if err != nil {
-		c.writeCache(spec, nil) // Remember the workflow file was invalid
+		if m, ok := c.writeCacheIfAbsent(spec, nil); !ok { // Remember the workflow file was invalid
+			return m, nil // Another goroutine already found (and reported) it
+		}
 		msg := strings.ReplaceAll(err.Error(), "\n", " ")
 		return nil, fmt.Errorf("error while parsing reusable workflow %q: %s", spec, msg)
 	}
 
 	c.debug("New reusable workflow metadata at %s: %v", file, m)
-	c.writeCache(spec, m)
+	m, _ = c.writeCacheIfAbsent(spec, m)
 	return m, nil
 }
 
